@@ -369,6 +369,15 @@ func (r *Run) runCase(hc harnessCase) *JobResult {
 		fmt.Fprintf(os.Stderr, "[%s/%d] executed in %.1fs: %d obligations, %d assumptions, %d terms, %d instrs\n",
 			hc.name, hc.k, jr.ExecSecs, len(x.obls), len(x.assumes), x.c.n, x.stat.instrs)
 	}
+	if debugObls {
+		h := map[string]int{}
+		for _, ob := range x.obls {
+			h[ob.Kind+" "+ob.ID]++
+		}
+		for k, v := range h {
+			fmt.Fprintf(os.Stderr, "OBL %6d %s\n", v, k)
+		}
+	}
 	r.solveJob(x, jr)
 	return jr
 }
@@ -811,3 +820,11 @@ func primarySolver() string {
 	}
 	return "z3new"
 }
+
+func init() {
+	if os.Getenv("VX_DEBUG_OBLS") != "" {
+		debugObls = true
+	}
+}
+
+var debugObls bool
